@@ -35,6 +35,9 @@ static double boundOf (const std::string& what)
         {"rotate-forms-agree", 16},       // rotateVector, v*q, v*M33, v*M44, multDirMatrix vs exact R(q)v, scale |v|
         {"matrix-of-product", 16},        // toMatrix33(q1*q2) vs toMatrix33(q2)*toMatrix33(q1)
         {"mul-inverse-identity", 8},      // q * q.inverse() vs 1
+        {"alias-product", 8},             // q *= q, q = q * q, q *= ~q vs the exact products of the ORIGINAL value, scale |q|^2
+        {"alias-quotient", 8},            // q /= q, q = q / q, q *= q.inverse () vs 1
+        {"alias-vector-part", 16},        // q.v = q.rotateVector (q.v) (the axis is invariant), q.setAxisAngle (q.v, a) for unit q
         {"orthonormal", 16},              // M M^T - I, det - 1
         {"extractQuat", 16},              // extractQuat(toMatrix44 q) = +-q
         {"axis-angle-roundtrip", 16},     // setAxisAngle(axis(), angle()) = q
@@ -208,6 +211,24 @@ template <class T> static void unitQuatChecks (int i)
         r.setAxisAngle (q.axis (), q.angle ());
         check<T> ("axis-angle-roundtrip", qdistpm (toL (r), toL (q)), 1, in);
     }
+    // --- aliasing through the vector part: q.v = q.rotateVector (q.v) leaves the axis where it is; q.setAxisAngle (q.v, a) reads q.v
+    //     through a reference while q is being written
+    {
+        Quat<T> g = q; g.v = g.rotateVector (g.v);
+        L e1 = vdist (toLV (g.v), LV{ql.x, ql.y, ql.z});
+        L ang = uni (-PI, PI);
+        T a = (T) ang;
+        Quat<T> h = q; h.setAxisAngle (h.v, a);
+        L vl = sqrtl (ql.x * ql.x + ql.y * ql.y + ql.z * ql.z), e2 = 0;
+        if ((L) q.v.length2 () > 1e-6L)
+        {
+            LQ ex{cosl ((L) a / 2), ql.x / vl * sinl ((L) a / 2), ql.y / vl * sinl ((L) a / 2), ql.z / vl * sinl ((L) a / 2)};
+            e2 = qdist (toL (h), ex);
+            hits["alias-class:q.setAxisAngle(q.v,a),q.v=q.rotateVector(q.v)"]++;
+        }
+        L e = std::max (e1, e2);
+        check<T> ("alias-vector-part", e == e ? e : (L) INFINITY, 1, in, "alias:Quat-vector-part");
+    }
     // --- exp (log q) = q unless the real part is close to -1  ("close" = within 64 eps of -1; there only NaN-freeness)
     {
         Quat<T> lg = q.log ();
@@ -260,6 +281,24 @@ template <class T> static void generalQuatChecks ()
     Quat<T> cj = ~q;
     if (!(cj.r == q.r && cj.v.x == -q.v.x && cj.v.y == -q.v.y && cj.v.z == -q.v.z)) err = INFINITY;
     check<T> ("mul-inverse-identity", err, 1, "q=" + showQ (q));
+    // --- aliasing: the same object on both sides of the compound operators (a member that reads an operand after overwriting it
+    //     is identical for distinct operands and wrong here)
+    {
+        LQ ql = toL (q);
+        L n2 = ndot (ql, ql);
+        LQ ex = lmul (ql, ql);
+        Quat<T> a1 = q; a1 *= a1;
+        Quat<T> a2 = q; a2 = a2 * a2;
+        Quat<T> a3 = q; a3 *= ~a3;
+        L e = std::max ({qdist (toL (a1), ex), qdist (toL (a2), ex), qdist (toL (a3), LQ{n2, 0, 0, 0})});
+        check<T> ("alias-product", e == e ? e : (L) INFINITY, n2, "q=" + showQ (q), "alias:Quat::operator*=(self)");
+        Quat<T> d1 = q; d1 /= d1;
+        Quat<T> d2 = q; d2 = d2 / d2;
+        Quat<T> d3 = q; d3 *= d3.inverse ();
+        L e2 = std::max ({qdist (toL (d1), LQ{1, 0, 0, 0}), qdist (toL (d2), LQ{1, 0, 0, 0}), qdist (toL (d3), LQ{1, 0, 0, 0})});
+        check<T> ("alias-quotient", e2 == e2 ? e2 : (L) INFINITY, 1, "q=" + showQ (q), "alias:Quat::operator/=(self)");
+        hits["alias-class:q*=q,q=q*q,q*=~q,q/=q,q=q/q,q*=q.inverse()"]++;
+    }
 }
 
 template <class T> static void axisAngleChecks (int i)
